@@ -408,7 +408,12 @@ var AnalyzerBuiltinArity = &Analyzer{
 			if head == "" {
 				return
 			}
-			if userDefs[head] {
+			// lisp:car names the builtin car whatever the file binds car to,
+			// so a qualified head is checked under its bare name and no local
+			// definition exempts it.
+			if bare, ok := strings.CutPrefix(head, lisp.DefaultLangPackage+":"); ok {
+				head = bare
+			} else if userDefs[head] {
 				return
 			}
 			spec, ok := builtinArityTable[head]
